@@ -22,6 +22,8 @@ EXPLANATION = (
 NOT_DECIDED = ['collision resistance of the row hash', 'that moving cells between rows changes a hash (follows from (c) only given binding hashes)']
 TRUSTED = ['rustc nightly MIR', 'sha3 / blake2 / starknet-crypto', 'Python integers for the Montgomery constant']
 
+THOROUGH_MAIN_CONFIGS = ['b248s6', 'nostd']
+
 
 def run(ctx, rep):
     db = ctx.main
